@@ -61,6 +61,15 @@ def eval_guard(prog, g, body=None, depth=0):
         d = "; ".join(f"`{f['lhs']} {f['rel']} {f['rhs']}` -> {'/'.join(f['outcome'])}" for f in r.found) or \
             "no refusing comparison (none required)"
         return True, d, [f["where"] for f in r.found] or [f"{body.loc[0]}:{body.loc[1]}"], [body.path]
+    # a comparison of the whole shapes (shape(a) != shape(b), or a tuple of both dimensions) settles every dimension pair
+    if not r.found and depth == 0 and g.reject:
+        ws = _whole_shape_guard(g)
+        if ws is not None:
+            r2 = check_guard(body, ws[0], ws[1], g.reject, g.accept, g.want, res=cx.res, cmps=cx.cmps, edges=cx.edges,
+                             dominate=g.dominate, int_domain=None)
+            if r2.ok and r2.found:
+                d = "; ".join(f"`{f['lhs']} {f['rel']} {f['rhs']}` -> {'/'.join(f['outcome'])}" for f in r2.found)
+                return True, "whole-shape comparison: " + d, [f["where"] for f in r2.found], [body.path]
     direct_problem = "; ".join(r.problems)
     if r.found or not g.interproc or depth >= 2 or not g.reject:
         return False, direct_problem, r.sites or [f"{body.loc[0]}:{body.loc[1]}"], [body.path]
@@ -89,6 +98,25 @@ def eval_guard(prog, g, body=None, depth=0):
                 pass
         s2 = g.subject.remap(m) if hasattr(g.subject, "remap") else None
         b2 = g.bound.remap(m) if hasattr(g.bound, "remap") else None
+        # the helper may receive the compared quantities themselves (check_len(x.len(), y.len()))
+        from .match import Arg
+        for j, a in enumerate(t["args"]):
+            at = cx.res.operand(a)
+            if s2 is None and callable(g.subject) and g.subject(at):
+                s2 = Arg(j + 1)
+            elif b2 is None and callable(g.bound) and not isinstance(g.bound, int) and g.bound(at):
+                b2 = Arg(j + 1)
+            else:
+                # the helper receives a whole shape tuple and projects the dimension itself
+                from .match import SHAPE_CALLS, Pred
+                if at[0] == "call" and SHAPE_CALLS.search(at[1]):
+                    for comp in ("0", "1"):
+                        proj = ("field", at, comp)
+                        mk = lambda jj, cc: Pred(lambda x: x[0] == "field" and x[2] == cc and x[1][0] == "arg" and x[1][1] == jj, f"arg{jj}.{cc}")
+                        if s2 is None and callable(g.subject) and g.subject(proj):
+                            s2 = mk(j + 1, comp)
+                        elif b2 is None and callable(g.bound) and not isinstance(g.bound, int) and g.bound(proj):
+                            b2 = mk(j + 1, comp)
         if not s2 or not b2:
             continue
         if g.dominate and not _on_every_success_path(body, bb, cuts):
@@ -147,3 +175,24 @@ def run(ck, prog, specs):
                                   f"{g.want}, let through {sorted(g.accept)} "
                                   f"(atoms: n = subject<bound, z = equal, p = subject>bound; ints literal)",
                          found=detail, path=path)
+
+
+def _whole_shape_guard(g):
+    """for a guard on (rows|cols|len of arg a) vs (rows|cols|len of arg b): matchers for `shape(a)` vs `shape(b)`"""
+    from .match import Dim, Base, Pred, SHAPE_CALLS, dim_of
+    s, b = g.subject, g.bound
+    if not (isinstance(s, Dim) and isinstance(b, Dim)) or s.kind != b.kind or s.kind not in ("rows", "cols"):
+        return None
+    if not (isinstance(s.base, Base) and isinstance(b.base, Base)):
+        return None
+
+    def mk(base):
+        def pred(t):
+            if t[0] == "call" and SHAPE_CALLS.search(t[1]) and t[2] and base.match(t[2][0]):
+                return True
+            if t[0] == "agg" and t[1] == "tuple" and len(t[2]) == 2:
+                d0, d1 = dim_of(t[2][0]), dim_of(t[2][1])
+                return bool(d0 and d1 and d0[0] == "rows" and d1[0] == "cols" and base.match(d0[1]) and base.match(d1[1]))
+            return False
+        return Pred(pred, f"shape({base})")
+    return mk(s.base), mk(b.base)
